@@ -182,11 +182,24 @@ def malformed(ctx, pop, classes):
                     del d[m]
                 cases.append(("partial-crt", d))
             cases.append(("oth", dict(base, oth=[{"r": "AQ", "d": "AQ", "t": "AQ"}])))
+            # well-formed but inconsistent private integers: one bit of d / dp / dq / qi changed (parity and range kept), or all
+            # four taken from another key with the same modulus size - the members no longer describe ONE key
+            if all(m in base for m in ("p", "q", "dp", "dq", "qi")):
+                for m in ("d", "dp", "dq", "qi"):
+                    v = int.from_bytes(KC.strict_b64(base[m]), "big") ^ (1 << rng.choice([1, 2, 5, 17]))
+                    cases.append((f"inconsistent-{m}", dict(base, **{m: KC.b64u(v.to_bytes((v.bit_length() + 7) // 8, "big"))})))
+                other = KC.K.jwk_dict("rsa2048b" if label != "rsa2048b" else "rsa2048")
+                if len(KC.strict_b64(other["n"])) == len(KC.strict_b64(base["n"])):
+                    cases.append(("inconsistent-foreign-private-part", dict(base, **{m: other[m] for m in ("d", "dp", "dq", "qi")})))
         if key.key_type == "EC":
             raw = bytearray(KC.strict_b64(base["x"]))
             raw[-1] ^= 1
             cases.append(("point-not-on-curve", dict(base, x=KC.b64u(bytes(raw)))))
             cases.append(("unknown-crv", dict(base, crv="P-999")))
+            if key.is_private and "d" in base:
+                dv = int.from_bytes(KC.strict_b64(base["d"]), "big") ^ 2
+                n_ = len(KC.strict_b64(base["x"]))
+                cases.append(("inconsistent-d", dict(base, d=KC.b64u(dv.to_bytes(max(n_, (dv.bit_length() + 7) // 8), "big")))))
         if key.key_type == "OKP":
             cases.append(("unknown-crv", dict(base, crv="Ed999")))
             cases.append(("wrong-length-x", dict(base, x=base["x"][:-4])))
@@ -331,6 +344,27 @@ def differential(ctx, pop, classes):
                     k2 = ECBinding.import_public_key(dict(v)).public_numbers()
                     return ("S", f"{hx(ECBinding._curves_dss[k2.curve.name].encode())},{k2.x},{k2.y}")
                 impls.append(imp4)
+    # ... and the octet-string members of oct and OKP keys (unpadded base64url of the raw octets)
+    from joserfc.rfc7518.oct_key import OctBinding
+    from joserfc.rfc8037.okp_key import OKPBinding
+    from cryptography.hazmat.primitives import serialization as _ser
+    for label, key in pop:
+        if key.key_type == "oct":
+            raw = key.raw_value
+            lines.append(f"key.export oct {hx(raw)}")
+            impls.append(lambda raw=raw: ("J", dict(OctBinding.convert_raw_key_to_dict(raw, True))))
+            kd = dict(OctBinding.convert_raw_key_to_dict(raw, True))
+            for v in (kd, dict(kd, k=kd["k"] + "=" * (-len(kd["k"]) % 4 or 4)), dict(kd, k=kd["k"] + "A"), {}, dict(kd, k=kd["k"].replace("-", "+").replace("_", "/") or "+")):
+                lines.append(f"key.import oct {enc_jval(v)}")
+                impls.append(lambda v=v: ("H", OctBinding.import_from_dict(dict(v))))
+        elif key.key_type == "OKP":
+            x = key.public_key.public_bytes(_ser.Encoding.Raw, _ser.PublicFormat.Raw)
+            lines.append(f"key.export okp-pub {hx(key.curve_name.encode())} {hx(x)}")
+            impls.append(lambda key=key: ("J", dict(OKPBinding.export_public_key(key.public_key))))
+            if key.is_private:
+                dv = key.raw_value.private_bytes(_ser.Encoding.Raw, _ser.PrivateFormat.Raw, _ser.NoEncryption())
+                lines.append(f"key.export okp-priv {hx(key.curve_name.encode())} {hx(x)} {hx(dv)}")
+                impls.append(lambda key=key: ("J", dict(OKPBinding.export_private_key(key.raw_value))))
     # RSA CRT rule
     from joserfc.rfc7518.rsa_key import has_all_prime_factors
     for _ in range(40):
@@ -402,7 +436,7 @@ def differential(ctx, pop, classes):
             body = m[3:]
             if op in ("key.asdict", "key.export"):
                 mo = ("ok", wire.dec_jval(body))
-            elif op == "key.eccoord":
+            elif op == "key.eccoord" or ln.startswith("key.import oct "):
                 mo = ("ok", wire.unhx(body))
             elif op in ("key.rsacrt", "key.octwarn"):
                 mo = ("ok", body == "T")
